@@ -243,9 +243,10 @@ func (e *kvElection) handleReconnect() {
 		e.cfg.Metrics.SetConnectionStatus(1, e.getMetricsLabels())
 	}
 
-	if e.disconnectHandler.timer != nil {
-		e.disconnectHandler.timer.Stop()
-		e.disconnectHandler.timer = nil
+	// The grace timer is guarded by the handler's own mutex (taken after e.mu,
+	// the same order as in Stop).
+	if e.disconnectHandler != nil {
+		e.disconnectHandler.stop()
 	}
 
 	if !e.isLeader.Load() {
